@@ -69,14 +69,16 @@ def gen_module(rng, name, npk, std, broken):
     pk = ["p%d" % i for i in range(npk)]
     deps = {}
     for i in range(npk):
-        cands = list(range(i))
-        ds = set()
-        if cands:
+        # a wide graph: two leaves, siblings (same dependencies as an earlier package, hence
+        # independent of it), diamonds -- so that package actions really run concurrently
+        if i < 2:
+            ds = set()
+        elif rng.chance(1, 3):
+            ds = set(deps[1 + rng.below(i - 1)]) or {0}
+        else:
+            ds = set()
             for _ in range(1 + rng.below(3)):
-                ds.add(rng.choice(cands))
-            if i >= 3 and rng.chance(1, 2):
-                ds.add(i - 1)
-                ds.add(i - 2)  # diamonds
+                ds.add(rng.below(i))
         deps[i] = sorted(ds)
     meta = {"packages": pk, "deps": {pk[i]: [pk[j] for j in deps[i]] for i in range(npk)}, "std": std, "broken": broken}
     for i in range(npk):
@@ -154,9 +156,15 @@ def gen_module(rng, name, npk, std, broken):
         files["bad/bad.go"] = "package bad\n\n// V does not type-check.\nvar V int = \"s\"\n\n// F is fine.\nfunc F() int { return undefinedName }\n"
         files["usesbad/u.go"] = ("package usesbad\n\nimport (\n\t\"example.com/%s/bad\"\n\t\"example.com/%s/p0\"\n)\n\n// G uses bad.\nfunc G() int { return bad.F() + p0.New0() }\n"
                                  % (name, name))
-        meta["packages"] += ["bad", "usesbad"]
+        # the same with a broken package that sorts behind the healthy dependency
+        files["zbad/zbad.go"] = "package zbad\n\n// F does not type-check.\nfunc F() int { return \"no\" }\n"
+        files["useszbad/u.go"] = ("package useszbad\n\nimport (\n\t\"example.com/%s/p0\"\n\t\"example.com/%s/zbad\"\n)\n\n// G uses zbad.\nfunc G() int { return zbad.F() + p0.New0() }\n"
+                                  % (name, name))
+        meta["packages"] += ["bad", "usesbad", "zbad", "useszbad"]
         meta["deps"]["bad"] = []
         meta["deps"]["usesbad"] = ["bad", "p0"]
+        meta["deps"]["zbad"] = []
+        meta["deps"]["useszbad"] = ["p0", "zbad"]
     return files, meta
 
 
@@ -173,7 +181,9 @@ class Run:
     __slots__ = ("rc", "out", "err", "trace", "cfg")
 
 
-def sc_run(ctx, binary, moddir, args, procs, yseed, cache, trace=False, timeout=600, tag=""):
+def sc_run(ctx, binary, moddir, args, procs, yseed, cache, trace=False, timeout=None, tag=""):
+    if timeout is None:
+        timeout = 360 if getattr(ctx, "quick", True) else 900
     env = vlib.go_env({"GOMAXPROCS": str(procs), "STATICCHECK_CACHE": cache,
                        "GORACE": "halt_on_error=0 exitcode=66"})
     env.pop("VERIF_C06_TRACE", None)
@@ -189,10 +199,20 @@ def sc_run(ctx, binary, moddir, args, procs, yseed, cache, trace=False, timeout=
     import subprocess
     try:
         rc, so, se = vlib.run([binary] + args, cwd=moddir, env=env, timeout=timeout)
-    except subprocess.TimeoutExpired as e:
-        # a run that does not end is a deadlock (or livelock) of the scheduler
-        rc, so = -9, (e.stdout or b"").decode(errors="replace") if isinstance(e.stdout, bytes) else (e.stdout or "")
-        se = "fatal error: timeout after %d s (the run did not terminate)" % timeout
+    except subprocess.TimeoutExpired:
+        # Slow machine or deadlock?  Same configuration once more (fresh trace file, same cache
+        # directory) with four times the budget; a run that still does not end is a deadlock
+        # (or livelock) of the scheduler.
+        if tpath and os.path.exists(tpath):
+            os.remove(tpath)
+        try:
+            rc, so, se = vlib.run([binary] + args, cwd=moddir, env=env, timeout=4 * timeout)
+            notes = getattr(ctx, "notes", None)
+            if notes is not None:
+                notes.append("a run exceeded %d s and was repeated: %s GOMAXPROCS=%s yield=%s" % (timeout, args, procs, yseed))
+        except subprocess.TimeoutExpired as e:
+            rc, so = -9, (e.stdout or b"").decode(errors="replace") if isinstance(e.stdout, bytes) else (e.stdout or "")
+            se = "fatal error: timeout after %d s and again after %d s (the run did not terminate)" % (timeout, 4 * timeout)
     r = Run()
     r.rc, r.out, r.err = rc, so, se
     r.trace = open(tpath).read() if tpath and os.path.exists(tpath) else None
@@ -331,21 +351,22 @@ def trace_lines(text, procs):
         # The hook logs `dec` before the atomic decrement. The decrement that reached zero (the
         # one followed by `sent`) was the last real one, so its linearisation point is moved
         # behind the last logged decrement of the same target (still before its `sent`).
-        sender = {}
-        for k, (c, a, t) in enumerate(evs):
-            if c == "n":
-                sender[t] = a
         lastdec = {}
         for k, (c, a, t) in enumerate(evs):
             if c == "d":
                 lastdec[t] = k
-        moves = []
-        for k, (c, a, t) in enumerate(evs):
-            if c == "d" and sender.get(t) == a and lastdec[t] != k:
-                moves.append((k, lastdec[t]))
-        for (k, dest) in sorted(moves, reverse=True):
-            e = evs.pop(k)
-            evs.insert(dest, e)
+        key = list(range(len(evs)))
+        moves = 0
+        for p, (c, a, t) in enumerate(evs):
+            if c != "n":
+                continue
+            q = p - 1
+            while q >= 0 and evs[q] != ("d", a, t):
+                q -= 1
+            if q >= 0 and lastdec.get(t, q) != q:
+                key[q] = lastdec[t] + 0.5  # only this one decrement of the sender (there may be parallel edges)
+                moves += 1
+        evs = [e for (_, _, e) in sorted((key[k], k, evs[k]) for k in range(len(evs)))]
         toks = []
         for (c, a, t) in evs:
             if c in "+-":
@@ -359,7 +380,7 @@ def trace_lines(text, procs):
         execs = ",".join(str(a) for (c, a, t) in evs if c == "x")
         out.append({"inst": inst, "kind": "buffered" if d["buffered"] else "run", "pkg": d["pkg"], "line": line,
                     "flags": "".join("1" if f else "0" for f in flags), "n": n, "names": inv, "order": execs,
-                    "inline": sum(1 for (c, a, t) in evs if c == "i"), "moved": len(moves)})
+                    "inline": sum(1 for (c, a, t) in evs if c == "i"), "moved": moves})
     return out, problems
 
 
@@ -580,7 +601,9 @@ def explore_module(ctx, st, name, files, meta, sc, scrace, warm, plan):
         st["evaluations"] += 1
         if r.rc != base.rc or r.out != base.out:
             st["oracle_failures"] += 1
-            if CRASH.search(r.err) or r.rc not in (0, 1):
+            if r.rc == -9:
+                what = "the run did not terminate under this schedule (deadlock)"
+            elif CRASH.search(r.err) or r.rc not in (0, 1):
                 what = "the linter crashed / failed under this schedule"
             else:
                 what = "output differs between two runs on the same input (GOMAXPROCS / yields / pattern order / repetition)"
@@ -590,6 +613,25 @@ def explore_module(ctx, st, name, files, meta, sc, scrace, warm, plan):
                 text="C06: %s: module %s, run %s vs baseline: %s" % (what, name, r.cfg, first_diff(base.out, r.out)))
         if r.trace is not None:
             st["traces"].append((name, r.cfg, r.trace, files, meta))
+
+    # the other formatters: two runs under different schedules print the same bytes
+    fmt_cfgs = []
+    for k, fm in enumerate(plan.get("formats", [])):
+        a = ["-f", fm, "-checks", "all"] + tests + ["./..."]
+        fmt_cfgs.append((sc, a, 1, 0, False, "f%da" % k))
+        fmt_cfgs.append((sc, a, rng.choice([3, 8, 16]), rng.below(1000) + 1, False, "f%db" % k))
+    with ThreadPoolExecutor(max_workers=WORKERS) as ex:
+        fmt_results = list(ex.map(go, fmt_cfgs))
+    for k in range(0, len(fmt_cfgs), 2):
+        ra, rb = fmt_results[k], fmt_results[k + 1]
+        st["runs"] += 2
+        st["evaluations"] += 1
+        if ra.rc != rb.rc or ra.out != rb.out or ra.rc not in (0, 1):
+            st["oracle_failures"] += 1
+            ctx.violation("format_%s_%s.json" % (name, fmt_cfgs[k][1][1]), replay_obj(
+                "output in format %s differs between two runs on the same input" % fmt_cfgs[k][1][1], files, meta, [ra.cfg, rb.cfg], {
+                    "rc": [ra.rc, rb.rc], "first_difference": first_diff(ra.out, rb.out), "stderr_2": rb.err[-2000:]}),
+                text="C06: -f %s output differs between two runs (module %s): %s" % (fmt_cfgs[k][1][1], name, first_diff(ra.out, rb.out)))
 
     # subsets of the patterns: the problems of a named package are those of the full run
     full, _ = by_package(base.out, moddir, meta["packages"])
@@ -631,9 +673,11 @@ def explore_module(ctx, st, name, files, meta, sc, scrace, warm, plan):
         elif r.rc != base.rc or r.out != base.out:
             st["oracle_failures"] += 1
             ctx.violation("nondet_race_%s_%s.json" % (name, cfg[5]), replay_obj(
+                "the run of the -race build did not terminate (deadlock)" if r.rc == -9 else
                 "output of the -race build differs from the baseline", files, meta, [base.cfg, r.cfg], {
                     "rc": [base.rc, r.rc], "first_difference": first_diff(base.out, r.out), "stderr_2": r.err[-2000:]}),
-                text="C06: -race build output differs on module %s: %s" % (name, first_diff(base.out, r.out)))
+                text="C06: -race build %s on module %s (%s): %s" % ("did not terminate" if r.rc == -9 else "output differs", name, r.cfg,
+                                                                        first_diff(base.out, r.out)))
     return base, moddir
 
 
@@ -775,13 +819,24 @@ def run(ctx):
     warm_future = warm_pool.submit(sc_run, ctx, sc, wdir, ["-checks", "all", "./..."], 4, 0, wc, False, 1500)
 
     def need_warm():
+        """False when the linter crashed on the warm-up module (reported as a violation)."""
         if sc in warm:
-            return
+            return warm[sc] is not None
         r = warm_future.result()
-        if r.rc not in (0, 1):
-            raise vlib.HarnessError("warming the std facts failed: rc=%d %s" % (r.rc, r.err[-1500:]))
-        warm[sc] = wc
         lap("warm std facts (waited)")
+        if r.rc not in (0, 1) or CRASH.search(r.err):
+            st["oracle_failures"] += 1
+            wfiles = {}
+            for fn in os.listdir(wdir):
+                wfiles[fn] = open(os.path.join(wdir, fn)).read()
+            ctx.violation("crash_warmup.json", replay_obj(
+                "the linter crashed / did not terminate on a module that only imports std packages", wfiles,
+                {"packages": ["."], "std": True}, [r.cfg], {"rc": r.rc, "stderr": r.err[-3000:]}),
+                text="C06: staticcheck exit %s on the std warm-up module: %s" % (r.rc, r.err[-400:]))
+            warm[sc] = None
+            return False
+        warm[sc] = wc
+        return True
 
     if ctx.quick:
         mods = [("q_nostd", 6, False, True), ("q_std", 4, True, False)]
@@ -789,16 +844,16 @@ def run(ctx):
         race = {"q_nostd": [(4, 0), (16, 13)], "q_std": []}
         ncrafted, nperm = 14, 3
     else:
-        mods = [("t_nostd_a", 12, False, True), ("t_nostd_b", 16, False, False), ("t_std_a", 8, True, True), ("t_std_b", 10, True, False)]
-        matrix_n, orders, subsets = 18, 3, 8
+        mods = [("t_nostd_a", 12, False, True), ("t_nostd_b", 14, False, False), ("t_std_a", 9, True, True)]
+        matrix_n, orders, subsets = 12, 3, 5
         race = {m[0]: [(2, 0), (3, 21), (4, 22), (8, 23), (16, 24)] for m in mods if not m[2]}
-        ncrafted, nperm = 120, 5
+        ncrafted, nperm = 60, 4
 
     real_lists = []
     for (name, npk, std, broken) in mods:
         mrng = rng.fork(name)
-        if std:
-            need_warm()
+        if std and not need_warm():
+            continue
         files, meta = gen_module(mrng, "%s_s%d" % (name, ctx.seed), npk, std, broken)
         procs_all = [1, 2, 3, 4, 8, 16]
         matrix = []
@@ -807,7 +862,8 @@ def run(ctx):
             ys = 0 if k in (0, 1) else mrng.below(10 ** 6) + 1
             trace = (k % 2 == 0) or not ctx.quick
             matrix.append((procs, ys, trace))
-        plan = {"matrix": matrix, "orders": orders, "subsets": subsets, "race": race.get(name, []), "rng": mrng.fork("plan")}
+        plan = {"matrix": matrix, "orders": orders, "subsets": subsets, "race": race.get(name, []), "rng": mrng.fork("plan"),
+                "formats": ["sarif"] if ctx.quick else ["text", "stylish", "sarif"]}
         res = explore_module(ctx, st, "%s_s%d" % (name, ctx.seed), files, meta, sc, scrace, warm, plan)
         if res:
             base, moddir = res
